@@ -5,10 +5,11 @@
         produces for the block into exactly the tokens [wtoks] (types and texts);
       - the statement of the theorem itself on these tokens (a sanity check of the definitions on real data): the parser
         rebuilds [reorder] of the block up to layout and stops behind it.
-    case: as LOAD ( text strict _ _ floattable ... );  answer ( sOK blocks conforming lexical_mismatches parse_mismatches ( s<type>* ) blocks_with_wellformed_token_texts ) *)
+    case: as LOAD ( text strict _ _ floattable ... );  answer ( sOK blocks conforming lexical_mismatches parse_mismatches ( s<type>* ) blocks_with_wellformed_token_texts elements
+    elements_meeting_the_value_condition_of_the_load_write_theorem ) *)
 From Coq Require Import Ascii String List Bool NArith ZArith.
 From A2L Require Import Base.Sx Text.Escape Text.IntText Lex.Tokenizer Gram.Spec A2ml.Types Gram.PState Gram.Parser Gram.Writer
-  Gram.TokWriter Gen.SpecShipped Gen.WriterShipped Run.RunLoad.
+  Gram.TokWriter Gen.SpecShipped Gen.WriterShipped Run.RunLoad Proofs.ParseTraceProofs.
 Import ListNotations.
 Local Open Scope N_scope.
 
@@ -89,8 +90,13 @@ Definition run_rt (x : sx) : sx :=
                   let lexbad := filter (fun p => match snd p with Some (false, _, _) => true | _ => false end) res in
                   let parsebad := filter (fun p => match snd p with Some (_, false, _) => true | _ => false end) res in
                   let textok := filter (fun p => match snd p with Some (_, _, true) => true | _ => false end) res in
+                  (* elements that meet the value condition of the load -> write theorem (Props/C02.v) *)
+                  let c02ok := filter (fun n => match lookup_ty spec_shipped (node_name n) with
+                                                | Some td => match t_special td with None => goodb spec_shipped posr_shipped fuel td n | Some _ => false end
+                                                | None => false end) nodes in
                   SL [SS "OK"; sx_nat (length blocks); sx_nat (length conf); sx_nat (length lexbad); sx_nat (length parsebad);
-                      SL (map (fun p => SS (node_name (fst p))) (firstn 3 (lexbad ++ parsebad))); sx_nat (length textok)]
+                      SL (map (fun p => SS (node_name (fst p))) (firstn 3 (lexbad ++ parsebad))); sx_nat (length textok);
+                      sx_nat (length nodes); sx_nat (length c02ok)]
               | _ => SL [SS "NOLOAD"]
               end
           | _ => SL [SS "NOLOAD"]
